@@ -23,8 +23,9 @@ def run(tier, wd):
     q = tier == "quick"
     cases, abstracts = [], []
     n = 0
-    for b, m, d in itertools.product([False, True], repeat=3):
-        caps = {"bool": b, "multi": m, "isdefault": d, "failon": list(V.INVALID["custom"])}
+    # the third kind of type has the IsBoolFlag method but answers false: an ordinary valued type
+    for b, m, d in itertools.product([False, True, "false"], [False, True], [False, True]):
+        caps = {"bool": b is True, "boolfalse": b == "false", "multi": m, "isdefault": d, "failon": list(V.INVALID["custom"])}
         for role in ("opt", "arg"):
             for envpat in V.env_patterns(2 if q else 3):
                 for clipat in V.cli_patterns(2 if q else 3, True):
